@@ -14,7 +14,7 @@
   * Hardness enters as ONE hypothesis, `NoForge` (DESIGN 2.2, "SRP-6a is a PAKE for A ≢ 0 mod N" + hash
     collision freedom, made precise): for a public value `A ≢ 0 (mod N)`, no term that is `safe` — i.e.
     computable without the setup code, honest secrets and session secrets — denotes the bytes of the
-    expected proof.  The restriction to `A ≢ 0` is essential: for `A ≡ 0` such a term exists (this is the
+    proof expected in an exchange made from a public salt atom and a SECRET atom `b`.  The restriction to `A ≢ 0` is essential: for `A ≡ 0` such a term exists (this is the
     defect the repair removed), and the executable model refuses those `A` by itself (`C01_reject_kN`).
   * `hybrid_secure`: from a driver without verifier and safe knowledge, along every run, the knowledge
     stays safe and NO request is answered with the accessory's proof, with M6, or by recording a pairing.
@@ -89,8 +89,8 @@ theorem interp_zero_degenerate (I : Interp) : bytesToNat (interp I zero) % I.cfg
     term computable without the code / honest secrets / session secrets (`safe`) denotes the bytes of
     the expected proof. -/
 def NoForge (I : Interp) : Prop :=
-  ∀ Mt salt b At, safe Mt → bytesToNat (interp I At) % I.cfg.G.N ≠ 0 →
-    interp I Mt ≠ interp I (expM salt b At)
+  ∀ Mt k n At, safe Mt → bytesToNat (interp I At) % I.cfg.G.N ≠ 0 →
+    interp I Mt ≠ interp I (expM (nonce k) (sec n) At)
 
 /-! ### the hybrid system -/
 
@@ -156,6 +156,8 @@ structure HInv (I : Interp) (s : HState) : Prop where
   safe : ∀ t, s.kn t → safe t
   unverified : verifiedNow s.ps = false
   cur : s.g.exch = s.cur.map (exchOf I)
+  /-- the open exchange was made from a public salt atom and a secret atom -/
+  atoms : ∀ sb, s.cur = some sb → ∃ k n, sb = (nonce k, sec n)
 
 theorem goodM3_complete (cfg : Cfg) (ps : PS) (r : Req) (h : goodM3 cfg ps r = true) :
     completeM3 r = true := by
@@ -199,7 +201,9 @@ theorem no_good_m3 (I : Interp) (hpub : PubConst I) (hnf : NoForge I) (s : HStat
         have hfmt := (interp_expM I hpub sb.1 sb.2 At hAz).1
         have : interp I Mt = interp I (expM sb.1 sb.2 At) := by
           rw [hfmt, hMe, hcur]
-        exact hnf Mt sb.1 sb.2 At (der_safe hi.safe dM) hAne this
+        obtain ⟨k, n, hsb⟩ := hi.atoms sb hc
+        rw [hsb] at this
+        exact hnf Mt k n At (der_safe hi.safe dM) hAne this
 
 /-- one move preserves the invariant, and a served request yields no authorised output -/
 theorem hstep_secure (I : Interp) (hpub : PubConst I) (hnf : NoForge I) (s s' : HState)
@@ -209,7 +213,7 @@ theorem hstep_secure (I : Interp) (hpub : PubConst I) (hnf : NoForge I) (s s' : 
       x.post = (step I.cfg x.pre x.req).1 ∧ x.out = (step I.cfg x.pre x.req).2.1 := by
   cases st with
   | unpair =>
-    refine ⟨⟨⟨hi.ginv.exch, hi.ginv.demo⟩, hi.code, hi.safe, ?_, hi.cur⟩, by intro x h; cases h⟩
+    refine ⟨⟨⟨hi.ginv.exch, hi.ginv.demo⟩, hi.code, hi.safe, ?_, hi.cur, hi.atoms⟩, by intro x h; cases h⟩
     have := hi.unverified
     simpa [verifiedNow] using this
   | req r am hs hsalt hb =>
@@ -223,7 +227,7 @@ theorem hstep_secure (I : Interp) (hpub : PubConst I) (hnf : NoForge I) (s s' : 
       | m1 srv hs' hv hm h1' h2' hg' => rw [hs']; exact ⟨h2', rfl, by simp [verifiedNow, hv]⟩
       | m3 srv hs' hv h1' h2' hm => rw [hs']; exact ⟨h2', rfl, by simp [verifiedNow, hv, hg]⟩
       | m5 hver => rw [hi.unverified] at hver; exact absurd hver (by decide)
-    refine ⟨⟨ginv_step I.cfg s.ps s.g r hi.ginv, ?_, ?_, h2.2.2, ?_⟩, ?_⟩
+    refine ⟨⟨ginv_step I.cfg s.ps s.g r hi.ginv, ?_, ?_, h2.2.2, ?_, ?_⟩, ?_⟩
     · rw [(step_identity I.cfg s.ps r).1]; exact hi.code
     · -- knowledge stays safe
       intro t ht
@@ -247,6 +251,16 @@ theorem hstep_secure (I : Interp) (hpub : PubConst I) (hnf : NoForge I) (s s' : 
       · simp [hm, exchOf, hi.code, hsalt, hb]
       · simp only [hm, h2.1, hg, Bool.false_eq_true, if_false]
         exact hi.cur
+    · -- … and is made from atoms
+      intro sb hsb
+      show ∃ k n, sb = (nonce k, sec n)
+      have hsb' : curNext s (step I.cfg s.ps r).2.1 = some sb := hsb
+      unfold curNext at hsb'
+      by_cases hm : isM2 (step I.cfg s.ps r).2.1 = true
+      · simp only [hm, if_true, Option.some.injEq] at hsb'
+        exact ⟨2 * s.n + 4, s.n, hsb'.symm⟩
+      · simp only [hm, h2.1, Bool.false_eq_true, if_false] at hsb'
+        exact hi.atoms sb hsb'
     · intro x hx
       simp only [Option.some.injEq] at hx
       subst hx
@@ -280,6 +294,6 @@ theorem hybrid_secure (I : Interp) (hpub : PubConst I) (hnf : NoForge I) (s0 s :
     attacker with safe knowledge -/
 theorem hinit (I : Interp) (ps : PS) (kn : Tm → Prop) (hv : ps.verifier = none) (hc : ps.pincode = I.code)
     (hk : ∀ t, kn t → safe t) : HInv I ⟨ps, Ghost.init, kn, none, 0⟩ :=
-  ⟨ginv_init I.cfg ps hv, hc, hk, by simp [verifiedNow, hv], by simp [Ghost.init]⟩
+  ⟨ginv_init I.cfg ps hv, hc, hk, by simp [verifiedNow, hv], by simp [Ghost.init], by intro sb h; cases h⟩
 
 end Hap.PairSetupHybrid
